@@ -271,7 +271,9 @@ class Driver:
                 data = blocks.encode(blk)
                 ev["u"] = self.world.register(data)
                 ev["sz"] = len(data)
-                ev["fmt"] = blk.format.value
+                # the format code the table entry must carry comes from the layout, not from the
+                # library's own enum (a renumbered enum is a layout change)
+                ev["fmt"] = blocks.layout_format(rt, op["tag"])
             ctext = op.get("comment")
             if kind == "add":
                 if ctext is None:
